@@ -2,6 +2,7 @@
 from engine import *
 from facts import strip_generics, callee_of
 import sym
+import json
 import c02, c07, consume
 
 CONFIGS_QUICK = ["F_all"]
@@ -113,4 +114,59 @@ def r2_chunks(ctx):
         o["rule"] = "R2"
 
 
-RULES = [("R1", r1_siblings), ("R2", r2_chunks)]
+MUTATORS = ("drain", "truncate", "remove", "retain", "split_off", "clear", "rotate_left", "copy_within", "swap_remove", "set_len", "resize", "insert", "push", "extend_from_slice")
+
+
+def r3_owned_borrowed(ctx):
+    """The string-backed reader hands out borrowed events, the buffered one owned events; the deserializer trims both
+    in place through events::trim_cow.  Its Owned arm must yield exactly what the Borrowed arm yields: trim(bytes)."""
+    for cfg, F in ctx.facts.items():
+        b = ctx.body(F, "events::trim_cow", "R3")
+        if b is None:
+            continue
+        rows = {"Borrowed": 0, "Owned": 0}
+        for p in ctx.paths(b):
+            if ends(p) != "ret":
+                continue
+            r = ret_of(p)
+            k = decision_on(p, lambda t: t[0] == "discr" and root_of(t[1])[0] == "arg" and root_of(t[1])[2] == "value")
+            arm = {0: "Borrowed", 1: "Owned"}.get(k)
+            if arm is None or r[0] != "agg":
+                ctx.ob("R3", "trim_cow:shape", False, "trim_cow is expected to match on the Cow and return a Cow (path returns %s)" % sym.show(r, 2), config=cfg)
+                continue
+            rows[arm] += 1
+            payload = strip_wrappers(r[3][0]) if r[3] else None
+            trims = [("call", c[1], c[2], c[3]) for c in calls(p) if isinstance(c[2], str) and name_is(c[2], "call_once", "call", "call_mut") and c[3] and strip_wrappers(c[3][0])[0] == "arg" and strip_wrappers(c[3][0])[2] == "trim"]
+            if arm == "Borrowed":
+                ok = r[2] == "Borrowed" and len(trims) == 1 and payload == trims[0]
+                ctx.ob("R3", "trim_cow[Borrowed]", ok, "borrowed bytes: the result is trim(bytes)", config=cfg)
+                continue
+            muts = [c for c in calls(p) if isinstance(c[2], str) and name_is(c[2], *MUTATORS) and has_subterm(c[3][0], lambda s2: s2[0] == "arg" and s2[2] == "value")]
+            copy = payload is not None and payload[0] == "call" and name_is(payload[2], "to_vec", "to_owned", "into", "from", "into_owned") and trims and strip_wrappers(payload[3][0]) == trims[0]
+            same = payload is not None and payload[0] == "pl" and root_of(payload)[0] == "arg" and root_of(payload)[2] == "value" and not muts
+            if copy:
+                ctx.ob("R3", "trim_cow[Owned:changed]", r[2] == "Owned", "owned bytes that trim() shortened: the result is a copy of trim(bytes)", config=cfg)
+            elif same:
+                # the buffer is returned untouched: only sound where trim() removed nothing
+                eq = [e for e in p if e[0] == "switch" and e[2][0] == "bin" and e[2][1] in ("Ne", "Eq") and trims and has_subterm(e[2], lambda s2: s2 == trims[0])
+                      and has_subterm(e[2], lambda s2: call_is(s2, "len") and has_subterm(s2, lambda s3: s3[0] == "arg" and s3[2] == "value"))]
+                unchanged = bool(eq) and all((e[3] == 0) == (e[2][1] == "Ne") for e in eq)
+                ctx.ob("R3", "trim_cow[Owned:unchanged]", unchanged, "the owned buffer is returned as it is only where trim(bytes) has the same length as bytes", config=cfg)
+            else:
+                ctx.ob("R3", "trim_cow[Owned:in-place]", False, "the owned buffer is edited in place (%s) instead of being replaced by a copy of trim(bytes): not a recognised way of producing the same bytes as the Borrowed arm (fail closed)" % sorted({sym.short(c[2]) for c in muts}), config=cfg)
+        ctx.ob("R3", "trim_cow:arms", rows["Borrowed"] >= 1 and rows["Owned"] >= 2, "both representations handled: %s" % rows, config=cfg)
+        # callers pass the one-sided trimmers that their names promise
+        want = {"inplace_trim_start": "trim_xml_start", "inplace_trim_end": "trim_xml_end"}
+        n = 0
+        for cb, i, t in callers_of(F, "events::trim_cow"):
+            fn = sym.short(strip_generics(cb.path)).split("::")[-1]
+            if fn not in want:
+                continue
+            n += 1
+            passed = [sym.short(a["c"]["fn"]) if isinstance(a, dict) and isinstance(a.get("c"), dict) and "fn" in a["c"] else None for a in t.get("args", [])]
+            txt = json.dumps(t.get("args", []))
+            ctx.ob("R3", "%s:trimmer" % fn, want[fn] in txt and not any(w in txt for k2, w in want.items() if k2 != fn), "%s trims with %s" % (fn, want[fn]), config=cfg)
+        ctx.floor("R3", "in-place trim callers", n, 2, config=cfg)
+
+
+RULES = [("R1", r1_siblings), ("R2", r2_chunks), ("R3", r3_owned_borrowed)]
